@@ -39,7 +39,7 @@ def line(x):
             except KeyError: out.append('E K')
             except TypeError: out.append('E T')
             except IndexError: out.append('E I')
-        return ' | '.join(out)
+        return ' ## '.join(out)
     raise SystemExit('bad line')
 out = []
 for l in sys.stdin:
